@@ -5,6 +5,12 @@
 
 package advanced
 
+//@ type Service
+//@   guarded_by jobsMutex: jobs
+//@   // established by New; a job is entered into the table with its two channels made
+//@   valid self.jobs != nil
+//@   valid forall n string {in(self.jobs, n)} :: in(self.jobs, n) ==> self.jobs[n] != nil && self.jobs[n].runCh != nil && self.jobs[n].cancelCh != nil
+//@
 //@ // ---- C02: a one-off job runs exactly once, whoever starts it ----
 //@
 //@ // a job's channels are closed only once it is marked finalised (both under its state lock)
@@ -25,7 +31,7 @@ package advanced
 //@ func (*Service).ScheduleJob$1
 //@   thread
 //@   // what ScheduleJob hands over: the service, a fresh job with open channels, the function to run
-//@   requires s != nil && job != nil && jobFunc != nil && nolocks() && job.cancelCh != job.runCh && !closed(job.cancelCh) && !closed(job.runCh) && !atomic(job.finalised)
+//@   requires s != nil && job != nil && jobFunc != nil && nolocks() && job.cancelCh != job.runCh && !closed(job.cancelCh) && !closed(job.runCh)
 //@   // the job function runs at most once, on every way out
 //@   exit calls(jobFunc) <= 1
 //@   // when the timer fires the job runs: started by the timer, or - if an early-run request has claimed it in the
@@ -42,3 +48,52 @@ package advanced
 //@ func finaliseJob
 //@   requires job != nil && nolocks() && job.cancelCh != job.runCh && !closed(job.cancelCh) && !closed(job.runCh)
 //@   ensures closed(job.cancelCh) && closed(job.runCh) && atomic(job.finalised)
+//@
+//@ // ---- the job table: a one-off job's name is claimed once ----
+//@
+//@ // an early-run request takes a one-off job out of the table in the critical section in which it finds it, so that no
+//@ // second request (and no cancellation) can find the same job; it reports success only if the claim succeeded
+//@ func (*Service).RunJob
+//@   requires s != nil && nolocks()
+//@   requires !isnil(scheduler.ErrJobRunning) && !isnil(scheduler.ErrJobFinalised) && !isnil(scheduler.ErrNoSuchJob)
+//@   ensures !in(old(s.jobs), name) ==> result != nil && calls(runJob) == 0
+//@   ensures in(old(s.jobs), name) ==> calls(runJob) == 1
+//@   ensures in(old(s.jobs), name) && !old(s.jobs[name]).periodic ==> !in(s.jobs, name)
+//@   ensures in(old(s.jobs), name) && old(s.jobs[name]).periodic ==> in(s.jobs, name) && s.jobs[name] == old(s.jobs[name])
+//@   // no other job is touched
+//@   ensures forall n string {in(s.jobs, n)} :: n != name ==> (in(s.jobs, n) <==> in(old(s.jobs), n)) && s.jobs[n] == old(s.jobs[n])
+//@   // (and the atomic flags of the job concerned)
+//@   modifies contents(s.jobs), heap:AtomicBool
+//@
+//@ func (*Service).RunJobIfExists
+//@   requires s != nil && nolocks()
+//@   requires !isnil(scheduler.ErrJobRunning) && !isnil(scheduler.ErrJobFinalised)
+//@   ensures !in(old(s.jobs), name) ==> calls(runJob) == 0
+//@   ensures in(old(s.jobs), name) ==> calls(runJob) == 1
+//@   ensures in(old(s.jobs), name) && !old(s.jobs[name]).periodic ==> !in(s.jobs, name)
+//@   ensures forall n string {in(s.jobs, n)} :: n != name ==> (in(s.jobs, n) <==> in(old(s.jobs), n)) && s.jobs[n] == old(s.jobs[n])
+//@   // (and the atomic flags of the job concerned)
+//@   modifies contents(s.jobs), heap:AtomicBool
+//@
+//@ // cancelling takes the job out of the table (a finished or cancelled job's name can be scheduled again) and sends
+//@ // the cancel signal at most once, never on a closed channel
+//@ func (*Service).CancelJob
+//@   requires s != nil && nolocks() && !isnil(scheduler.ErrNoSuchJob)
+//@   ensures !in(s.jobs, name)
+//@   ensures in(old(s.jobs), name) <==> result == nil
+//@   ensures sends() <= 1 && (!in(old(s.jobs), name) ==> sends() == 0)
+//@   ensures forall n string {in(s.jobs, n)} :: n != name ==> (in(s.jobs, n) <==> in(old(s.jobs), n)) && s.jobs[n] == old(s.jobs[n])
+//@   // (and the atomic flags of the job concerned)
+//@   modifies contents(s.jobs), heap:AtomicBool
+//@
+//@ // a name that is in use is refused and nothing changes; otherwise a fresh one-off job is entered under the name (and
+//@ // nothing else changes in the table) before the table is released, and exactly one goroutine is started for it (with
+//@ // what ScheduleJob$1 requires). What the table holds when ScheduleJob returns is not stated: the job may have run by then.
+//@ func (*Service).ScheduleJob
+//@   requires s != nil && nolocks()
+//@   requires !isnil(scheduler.ErrNoJobName) && !isnil(scheduler.ErrNoJobFunc) && !isnil(scheduler.ErrJobAlreadyExists)
+//@   at call Unlock#2: assert !in(old(s.jobs), name) && in(s.jobs, name) && fresh(s.jobs[name]) && !s.jobs[name].periodic
+//@   at call Unlock#2: assert forall n string {in(s.jobs, n)} :: n != name ==> (in(s.jobs, n) <==> in(old(s.jobs), n)) && s.jobs[n] == old(s.jobs[n])
+//@   ensures in(old(s.jobs), name) ==> result != nil
+//@   ensures result != nil ==> calls(go) == 0 && (forall n string {in(s.jobs, n)} :: (in(s.jobs, n) <==> in(old(s.jobs), n)) && s.jobs[n] == old(s.jobs[n]))
+//@   ensures result == nil ==> calls(go) == 1
